@@ -31,6 +31,7 @@ REQUIRED_THEOREMS = [
     "Acn.C04.overlay_refines_from", "Acn.C04.applied_eq_spec", "Acn.C04.run_no_indexError",
     "Acn.C04.runPeriods_eq_runTrips", "Acn.C04.trips_applied_eq_spec", "Acn.C04.step_applied_eq_spec",
     "Acn.C04.step_no_indexError", "Acn.C04.last_applied_eq_column", "Acn.C04.last_applied_eq_spec",
+    "Acn.C04.reject_keeps_scheduling_state",
 ]
 BUDGET = {"quick": 700, "thorough": 6000, "search": 4000}
 TRUSTED = ["numpy slice assignment / np.array densification / float conversion of int and numpy values "
@@ -49,12 +50,15 @@ RULE = ("direct: 1-3 stations (registration order not sorted), start queue empty
         "run: 1-3 stations, 0-4 non-overlapping sessions, extra recompute events, max_recompute in "
         "{None,1,2,3}, a script giving every period a schedule (len 1-6, any subset, empty, beyond the "
         "horizon, in the last period), occasionally malformed or invalid for the EVSE, the recording scheduler "
-        "also reads Interface.last_applied_pilot_signals; step: the same scenarios driven through "
+        "also reads Interface.last_applied_pilot_signals, the simulator reaches it through the real "
+        "BaseAlgorithm.run() (only schedule() is overridden), 35 % of the runs use max_recompute=k with schedules "
+        "longer than k followed by empty / shorter ones (periods covered only by an old tail), 20 % contain "
+        "malformed schedules and 3/4 of those catch the error and call run() again (retry schedules per "
+        "period; _resolve, _last_schedule_update, schedule_history compared before/after the rejection); step: the same scenarios driven through "
         "Simulator.step() with 1-10 calls, max_recompute in {None,1,2,3,5}; rows of every kind (list, tuple, "
         "float64/float32/int64/int32 arrays, numpy float/int scalars, 0-d arrays, mixed, length-1 array, "
         "integers beyond 2^53); exh (thorough): every "
-        "sequence of <=3 submissions over 2 stations, t<=3 non-decreasing, len<=3 (plus empty / ragged / unknown-station dicts), lastTs in {none,4} (per submission for <=2 submissions, per sequence for 3), start width in {1,5}, plus 24 seeded samples of 2500 three-submission "
-        "scenarios with an independent lastTs per submission. "
+        "sequence of <=3 submissions over 2 stations, t<=3 non-decreasing, len<=3 (plus empty / ragged / unknown-station dicts), lastTs in {none,4} independently per submission, start width in {1,5}: 564,672 scenarios. "
         "non-trivial = an accepted submission overwrites part of an earlier accepted one, or the matrix has to "
         "grow, or a submission is rejected; distinct by hash of the case")
 
@@ -322,17 +326,12 @@ _EXH_TS = [ts for n in (1, 2, 3) for ts in itertools.combinations_with_replaceme
 
 
 def _exh_groups():
-    """(start_queue, ts, choices per submission): 1-2 submissions get every lastTs combination, 3 submissions
-    one lastTs for the whole sequence (none or 4)"""
+    """(start_queue, ts, choices per submission): every submission gets every shape and every lastTs"""
     full = [(sh, n, l) for (sh, n) in _EXH_SHAPES for l in _EXH_LAST]
     out = []
     for w0 in ([], [4]):
         for ts in _EXH_TS:
-            if len(ts) < 3:
-                out.append((w0, ts, [full] * len(ts)))
-            else:
-                for l in _EXH_LAST:
-                    out.append((w0, ts, [[(sh, n, l) for (sh, n) in _EXH_SHAPES]] * 3))
+            out.append((w0, ts, [full] * len(ts)))
     return out
 
 
@@ -669,8 +668,8 @@ def _run_step(case):
     net._sim = sim
     mr = case.get("max_recompute")
     sim.max_recompute = mr
-    if mr is not None:
-        sim._last_schedule_update = 0      # step() subtracts it from the iteration: it must be a number
+    if mr is not None and case.get("seed_lsu"):
+        sim._last_schedule_update = 0      # (before the fix of F17 step() needed a number here)
     width0 = int(sim.pilot_signals.shape[1])
     calls = []
     for c in case["calls"]:
@@ -755,39 +754,54 @@ def _oracle_run(case, obs, fails):
     if ts != list(range(len(ts))):
         fails.append({"kind": "periods_not_consecutive", "detail": str(ts)})
         return
-    # the error that ended the run
+    # every scheduler call: accepted, or rejected with the right exception and NO change of state
     err = obs["err"]
-    last_call = calls[-1] if calls else None
-    logged = set(ts)
-    died_in_call = last_call is not None and last_call["t"] not in logged
-    exp_err = _expected_error(stations, last_call["sched"]) if died_in_call else None
     maxrate = case.get("maxrate")
-    if err in ("KeyError", "InvalidSchedule"):
-        if exp_err != err:
-            fails.append({"kind": "wrong_error_class", "detail": f"run ended with {err}; the last schedule "
-                          f"{last_call and last_call['sched']} calls for {exp_err}"})
-        elif obs["final"] != last_call["before"]:
-            fails.append({"kind": "rejected_schedule_changed_state",
-                          "detail": f"period {last_call['t']}: pilot_signals differ from what they were when the "
-                                    f"scheduler was called"})
-    elif err == "InvalidRate":
+    for i, c in enumerate(calls):
+        exp = _expected_error(stations, c["sched"])
+        where = f"period {c['t']} (scheduler call {i}, lastTs {c['lastTs']})"
+        if c.get("raised"):
+            if c["raised"] != exp:
+                kind = "wrong_error_class"
+                if exp is None:
+                    kind = ("last_period_schedule_typeerror" if c["raised"] == "TypeError" and c["lastTs"] is None
+                            else "accepted_schedule_raised")
+                fails.append({"kind": kind, "detail": f"{where}: {c['sched']} raised {c['raised']}, expected {exp}"})
+                return
+            if not c["after_same"]:
+                fails.append({"kind": "rejected_schedule_changed_state",
+                              "detail": f"{where}: pilot_signals differ from what they were when the scheduler was called"})
+            if c["state_after"] != c["state"]:
+                fails.append({"kind": "rejected_schedule_changed_scheduling_state",
+                              "detail": f"{where}: before {c['state']}, after the rejection {c['state_after']}"})
+            # after catching the error and calling run() again the scheduler is asked again in the same period
+            resumed = i + 1 < len(calls) or (case.get("resume") and err is None)
+            if resumed and (i + 1 >= len(calls) or calls[i + 1]["t"] != c["t"]):
+                fails.append({"kind": "not_rescheduled_after_rejection",
+                              "detail": f"{where}: run() was resumed; next scheduler call "
+                                        f"{calls[i + 1]['t'] if i + 1 < len(calls) else None}"})
+        elif exp is not None:
+            fails.append({"kind": "malformed_schedule_accepted", "detail": f"{where}: {c['sched']} should raise {exp}"})
+    if err == "InvalidRate":
         t = obs["iteration"]
         subs = [(c["t"], c["sched"]) for c in calls]
         sent = [pilot_at(stations, subs, s, t) for s in stations]
         if maxrate is None or all(-1e-3 - 1e-9 <= p <= maxrate + 1e-3 + 1e-9 for p in sent):
             fails.append({"kind": "valid_pilot_refused", "detail": f"period {t}: pilots {sent} raised InvalidRate"})
-    elif err is not None:
-        kind = "accepted_schedule_raised"
-        if err == "TypeError" and died_in_call and last_call["lastTs"] is None and exp_err is None:
-            kind = "last_period_schedule_typeerror"
-        fails.append({"kind": kind, "detail": f"run ended with {err} in period {obs['iteration']}; last scheduler "
-                      f"call {None if last_call is None else {k: last_call[k] for k in ('t', 'lastTs', 'sched')}}"})
+    elif err is not None and not (calls and calls[-1].get("raised") == err):
+        fails.append({"kind": "accepted_schedule_raised",
+                      "detail": f"run ended with {err} in period {obs['iteration']} outside any schedule rejection"})
         return
-    else:
+    # schedule_history holds exactly what was accepted (or empty), never a rejected schedule
+    if obs.get("history") is not None:
+        want_h = {}
         for c in calls:
-            e = _expected_error(stations, c["sched"])
-            if e is not None:
-                fails.append({"kind": "malformed_schedule_accepted", "detail": f"period {c['t']}: {c['sched']} should raise {e}"})
+            if not c.get("raised"):
+                want_h[c["t"]] = sorted([st, _vals(r)] for st, r in c["sched"])
+        want_h = sorted([t, v] for t, v in want_h.items())
+        if obs["history"] != want_h:
+            fails.append({"kind": "schedule_history_wrong",
+                          "detail": f"schedule_history = {obs['history']}, the accepted schedules are {want_h}"})
     # what the EVSEs received and what was recorded, period by period
     subs = []
     ci = 0
@@ -951,18 +965,47 @@ def _gen_run(rng):
     r = rng.random()
     maxrate = None
     p_bad = 0.0
-    if r < 0.12:
-        p_bad = 0.15           # a malformed schedule somewhere: the run ends with its exception
-    elif r < 0.2:
+    if r < 0.2:
+        p_bad = 0.15           # a malformed schedule somewhere: the run raises (and is resumed, see below)
+    elif r < 0.27:
         maxrate = 32           # pilots above the EVSE's range: InvalidRateError path
     script = {}
-    for t in range(horizon + 2):
-        if rng.random() < 0.85:
-            script[str(t)] = _gen_sched(rng, stations, nonneg=True, p_bad=p_bad, p_empty=0.12,
-                                        vmax=(40 if maxrate else None))
+    vmax = 40 if maxrate else None
+    tail_stream = rng.random() < 0.35
+    if tail_stream:
+        # max_recompute = k, schedules LONGER than k followed by empty / shorter ones: some periods are
+        # covered only by the tail of an older schedule
+        max_recompute = rng.choice([1, 1, 2, 3])
+        long_next = True
+        for t in range(horizon + 2):
+            if long_next:
+                n = rng.randint(max_recompute + 1, 6)
+                k = rng.randint(1, len(stations))
+                script[str(t)] = [[st, _gen_row(rng, n, True, vmax)] for st in rng.sample(stations, k)]
+                long_next = rng.random() < 0.25
+            else:
+                r2 = rng.random()
+                if r2 < 0.5:
+                    script[str(t)] = []
+                else:
+                    n = rng.randint(1, max(1, max_recompute))
+                    k = rng.randint(1, len(stations))
+                    script[str(t)] = [[st, _gen_row(rng, n, True, vmax)] for st in rng.sample(stations, k)]
+                long_next = rng.random() < 0.5
+    else:
+        for t in range(horizon + 2):
+            if rng.random() < 0.85:
+                script[str(t)] = _gen_sched(rng, stations, nonneg=True, p_bad=p_bad, p_empty=0.12, vmax=vmax)
+    resume = False
+    if p_bad > 0:
+        # the caller catches the rejection and calls run() again: the scheduler's retries for that period
+        resume = rng.random() < 0.75
+        for t in range(horizon + 2):
+            script[f"{t}r1"] = _gen_sched(rng, stations, nonneg=True, p_bad=0.25, p_empty=0.2, vmax=vmax)
+            script[f"{t}r2"] = _gen_sched(rng, stations, nonneg=True, p_bad=0.0, p_empty=0.2, vmax=vmax)
     limit = rng.choice([None, None, None, 30, 5])
     return {"mode": "run", "stations": stations, "limit": limit, "maxrate": maxrate, "sessions": sessions,
-            "recompute": recompute, "max_recompute": max_recompute, "script": script}
+            "recompute": recompute, "max_recompute": max_recompute, "script": script, "resume": resume}
 
 
 def _r(v):
@@ -1009,7 +1052,6 @@ def _exh_cases(rng):
     total = _exh_total()
     step = 2500
     out = [{"mode": "exh", "lo": lo, "hi": min(total, lo + step)} for lo in range(0, total, step)]
-    out += [{"mode": "exh", "sample": rng.randrange(10 ** 6), "lo": 0, "hi": step} for _ in range(24)]
     return out
 
 
@@ -1018,18 +1060,19 @@ def _gen_step(rng):
     base = _gen_run(rng)
     stations = base["stations"]
     p_bad = 0.12 if rng.random() < 0.15 else 0.0
-    # most cases "unstick" step() before every call (see _run_step), some leave it to its own devices
-    unstick_all = rng.random() < 0.75
+    # the plain multi-call sequence is the default; a few cases also poke the private flags between calls
+    unstick_all = rng.random() < 0.1
     calls = []
-    for _ in range(rng.randint(1, 10)):
+    for _ in range(rng.randint(1, 12)):
         calls.append({"sched": _gen_sched(rng, stations, nonneg=True, p_bad=p_bad, p_empty=0.1),
-                      "unstick": unstick_all or rng.random() < 0.3})
+                      "unstick": unstick_all})
     # step() handles the events of period t only after the trip of period t-1, so a scenario is in step with
     # the clock only if nothing happens at time 0: shift everything by one period
     sessions = [dict(x, arrival=x["arrival"] + 1, departure=x["departure"] + 1) for x in base["sessions"]]
     recompute = [t + 1 for t in base["recompute"]]
     return {"mode": "step", "stations": stations, "limit": base["limit"], "sessions": sessions,
-            "recompute": recompute, "max_recompute": rng.choice([None, None, 1, 2, 3, 5]), "calls": calls}
+            "recompute": recompute, "max_recompute": rng.choice([None, None, 1, 2, 3, 5]), "calls": calls,
+            "seed_lsu": rng.random() < 0.3}
 
 
 def generate(rng, n, tier):
@@ -1201,6 +1244,27 @@ def features(case, obs):
                 out.append("row:" + r["c"])
         out.append("max_recompute:" + str(case.get("max_recompute")))
         out.append("run_err:" + str(obs["err"]))
+        out.append(f"run_calls_of_run():{obs.get('runs', 1)}")
+        for i, c in enumerate(obs["calls"]):
+            if c.get("raised"):
+                out.append("rejected_in_run:" + c["raised"])
+                if i + 1 < len(obs["calls"]) and obs["calls"][i + 1]["t"] == c["t"]:
+                    out.append("rescheduled_in_same_period_after_rejection")
+        # a period whose pilots come from the tail of an older schedule although the scheduler has been
+        # called (and answered with nothing or something shorter) since
+        ok = [(i, c) for i, c in enumerate(obs["calls"]) if not c.get("raised")]
+        tails = 0
+        for e in obs["log"]:
+            made = [(i, c) for i, c in ok if c["t"] <= e["t"]]
+            win = None
+            for i, c in made:
+                if _accepted(case["stations"], c["sched"]) and c["t"] <= e["t"] < c["t"] + len(c["sched"][0][1]["v"]):
+                    win = i
+            if win is not None and made and made[-1][0] > win:
+                tails += 1
+        if tails:
+            out.append("period_covered_only_by_old_tail")
+            out.append(f"old_tail_periods:{min(tails, 6)}")
         out.append(f"periods:{min(len(obs['log']), 12)}")
         out.append(f"calls:{min(len(obs['calls']), 12)}")
         for c in obs["calls"]:
